@@ -40,6 +40,10 @@ THEOREMS = ["PyYetiVerif.C19." + n for n in (
     "rescale_conserves_extendends rescale_telescopes rescale_density area_segment "
     "area_segment_tolerance_band_inexact area_additive interp_at_breakpoints "
     "interp_log_at_breakpoints "
+    "interpolant_is_piecewise_power_law area_is_integral_of_interpolant upsample_keeps_samples_full "
+    "constants_reproduced resample_kept_sample_times tnew_round_half_even tnew_uniform "
+    "edges_partition_linear edges_partition_linear_tolerance edges_partition_log edges_dispatch "
+    "edges_extendends_rule freq_oct_bands freq_oct_ratio "
 ).split()]
 TRUSTED = [
     "correspondence harness harness/props/c19.py (exact comparison on dyadic times; numeric 1e-9*scale elsewhere)",
